@@ -442,7 +442,7 @@ class Mx:
     def block(s, i, j, nr, nc): return s.view(_i(i), _i(j), _i(nr), _i(nc))
     def transpose(s): return Mx(s.c, s.r, [[s.g(i, j) for i in range(s.r)] for j in range(s.c)])
     def selfadjointViewLower(s): return Mx(s.r, s.c, [[s.g(max(i, j), min(i, j)) for j in range(s.c)] for i in range(s.r)])
-    def diagonal(s): return Mx(min(s.r, s.c), 1, [[s.g(i, i)] for i in range(min(s.r, s.c))])
+    def diagonal(s): return MxDiag(s)
     def array(s): return Mx(s.r, s.c, base=s, arr=True)
     def matrix(s): return Mx(s.r, s.c, base=s, arr=False)
     def eval(s): return s.copy()
@@ -578,6 +578,16 @@ class Mx:
 
     def __repr__(s):
         return 'Mx(%s)' % [[s.g(i, j).v for j in range(s.c)] for i in range(s.r)]
+
+
+class MxDiag(Mx):
+    """lvalue view of the main diagonal"""
+    def __init__(s, m):
+        s.m_, s.r, s.c, s.arr, s.base, s.r0, s.c0 = m, min(m.r, m.c), 1, m.arr, None, 0, 0
+    def g(s, i, j=0):
+        return s.m_.g(i, i)
+    def p(s, i, j, v):
+        s.m_.p(i, i, v)
 
 
 def shape_of(tynode):
@@ -1109,7 +1119,8 @@ class Exec:
             return []
         sh = shape_of({'qualType': t})
         if sh is not None and 'vector<' not in t:
-            return Mx(max(sh[0], 0), max(sh[1], 0), arr=sh[2])
+            r_, c_ = max(sh[0], 0), max(sh[1], 0)
+            return Mx(r_, c_, [[D(fresh('uninit')) for _ in range(c_)] for _ in range(r_)], arr=sh[2])     # Eigen does not initialise
         if re.search(r'\b(double|float)\b', t):
             return D(fresh('uninit'))
         if re.search(r'\b(Index|int|long|size_t|unsigned)\b', t):
@@ -1406,7 +1417,13 @@ class Exec:
         if key in s.cb:
             return s.cb[key](obj, *[rval(s.expr(a)) for a in argn])
         if obj is s.this or (isinstance(obj, dict) and obj.get('__class__') in s.cb.get('exec_classes', ())):
-            m = s.pick_method(name, len(argn))
+            m = None
+            ref = me.get('referencedMemberDecl')
+            if ref:
+                hit = [f for f in s.methods.get(name, []) if f.get('id') == ref]
+                m = hit[0] if hit else None
+            if m is None:
+                m = s.pick_method(name, len(argn))
             if m is not None:
                 return s.call_fn(m, [s.pass_arg(a, p) for a, p in zip(argn, [c for c in m['inner'] if c['kind'] == 'ParmVarDecl'])], obj)
         args = [rval(s.expr(a)) for a in argn]
